@@ -54,6 +54,7 @@ from dissect.cobaltstrike.c2 import (
     HttpResponse,
     TaskPacket,
     c2packet_to_record,
+    c2struct,
     encrypt_metadata,
     encrypt_packet,
 )
@@ -409,7 +410,9 @@ class HttpBeaconClient:
         self.counter += 1
 
         # Encrypt Callback data and transform into a request
-        packet = CallbackPacket(counter=self.counter, size=len(data), callback=BeaconCallback(callback_id), data=data)
+        # the struct field wants its own enum type; it takes any int, also ids that are not in our BeaconCallback table
+        callback = c2struct.BeaconCallback(int(callback_id))
+        packet = CallbackPacket(counter=self.counter, size=len(data), callback=callback, data=data)
         if self.writer:
             self.writer.write(c2packet_to_record(packet))
             self.writer.flush()
